@@ -25,72 +25,80 @@ theorem init_config_sound (admin : Bool) (proto p : Nat) (h : initializeConfigIx
       obtain ⟨a, b⟩ := protocol_fee_rate_bound _ _ hp
       exact ⟨rfl, a, by rw [← a]; exact b⟩
 
-/-- a fee tier is created only by the config's fee authority, at a free address, with a non-zero spacing and a
-    fee rate within the maximum -/
-theorem init_fee_tier_sound (auth : Nat) (taken : Bool) (ts fee a f : Nat)
-    (h : initializeFeeTierIx auth taken ts fee = .ok (a, f)) :
-    auth ≠ 1 ∧ auth ≠ 2 ∧ taken = false ∧ a = ts ∧ ts ≠ 0 ∧ f = fee ∧ fee ≤ MAX_FEE_RATE := by
+/-- a fee tier is created only by the config's fee authority, at the (free) address derived from config and
+    spacing, with a non-zero spacing and a fee rate within the maximum -/
+theorem init_fee_tier_sound (auth : Nat) (taken wrongAddr : Bool) (ts fee a f : Nat)
+    (h : initializeFeeTierIx auth taken wrongAddr ts fee = .ok (a, f)) :
+    auth ≠ 1 ∧ auth ≠ 2 ∧ taken = false ∧ wrongAddr = false ∧ a = ts ∧ ts ≠ 0 ∧ f = fee ∧ fee ≤ MAX_FEE_RATE := by
   unfold initializeFeeTierIx at h
   split at h
   · cases h
-  · rename_i h2
-    split at h
-    · cases h
-    · rename_i ht
-      split at h
-      · cases h
-      · rename_i h1
-        split at h
-        · cases h
-        · rename_i hts
-          cases hf : updateFeeRate fee with
-          | error e => rw [hf] at h; cases h
-          | ok q =>
-            rw [hf] at h
-            simp only [Except.ok.injEq, Prod.mk.injEq] at h
-            obtain ⟨e1, e2⟩ := h
-            obtain ⟨b1, b2⟩ := fee_rate_bound _ _ hf
-            exact ⟨h1, h2, by cases taken <;> simp_all, e1.symm, hts, by rw [← e2]; exact b1, by rw [← b1]; exact b2⟩
+  rename_i h2
+  split at h
+  · cases h
+  rename_i hw
+  split at h
+  · cases h
+  rename_i ht
+  split at h
+  · cases h
+  rename_i h1
+  split at h
+  · cases h
+  rename_i hts
+  cases hf : updateFeeRate fee with
+  | error e => rw [hf] at h; cases h
+  | ok q =>
+    rw [hf] at h
+    simp only [Except.ok.injEq, Prod.mk.injEq] at h
+    obtain ⟨e1, e2⟩ := h
+    obtain ⟨b1, b2⟩ := fee_rate_bound _ _ hf
+    exact ⟨h1, h2, by cases taken <;> simp_all, by cases wrongAddr <;> simp_all, e1.symm, hts, by rw [← e2]; exact b1,
+      by rw [← b1]; exact b2⟩
 
-/-- an adaptive fee tier is created only by the config's fee authority, at a free address, under an index other
-    than its spacing (that one is the plain fee tier's), with a non-zero spacing, a base fee rate within the
-    maximum and constants that satisfy the published validity rules for that spacing -/
-theorem init_adaptive_fee_tier_sound (auth : Nat) (taken : Bool) (idx ts fee : Nat) (c : AfConstants) (a f : Nat)
-    (h : initializeAdaptiveFeeTierIx auth taken idx ts fee c = .ok (a, f)) :
-    auth ≠ 1 ∧ auth ≠ 2 ∧ taken = false ∧ idx ≠ ts ∧ a = ts ∧ ts ≠ 0 ∧ f = fee ∧ fee ≤ MAX_FEE_RATE ∧
+/-- an adaptive fee tier is created only by the config's fee authority, at the (free) address derived from config
+    and index, under an index other than its spacing (that one is the plain fee tier's), with a non-zero spacing,
+    a base fee rate within the maximum and constants that satisfy the published validity rules for that spacing -/
+theorem init_adaptive_fee_tier_sound (auth : Nat) (taken wrongAddr : Bool) (idx ts fee : Nat) (c : AfConstants) (a f : Nat)
+    (h : initializeAdaptiveFeeTierIx auth taken wrongAddr idx ts fee c = .ok (a, f)) :
+    auth ≠ 1 ∧ auth ≠ 2 ∧ taken = false ∧ wrongAddr = false ∧ idx ≠ ts ∧ a = ts ∧ ts ≠ 0 ∧ f = fee ∧ fee ≤ MAX_FEE_RATE ∧
     validateConstants ts c = true := by
   unfold initializeAdaptiveFeeTierIx at h
   split at h
   · cases h
-  · rename_i h2
+  rename_i h2
+  split at h
+  · cases h
+  rename_i hw
+  split at h
+  · cases h
+  rename_i ht
+  split at h
+  · cases h
+  rename_i h1
+  split at h
+  · cases h
+  rename_i hidx
+  split at h
+  · cases h
+  rename_i hts
+  cases hf : updateFeeRate fee with
+  | error e => rw [hf] at h; cases h
+  | ok q =>
+    rw [hf] at h
+    simp only [] at h
     split at h
     · cases h
-    · rename_i ht
-      split at h
-      · cases h
-      · rename_i h1
-        split at h
-        · cases h
-        · rename_i hidx
-          split at h
-          · cases h
-          · rename_i hts
-            cases hf : updateFeeRate fee with
-            | error e => rw [hf] at h; cases h
-            | ok q =>
-              rw [hf] at h
-              simp only [] at h
-              split at h
-              · cases h
-              · rename_i hc
-                simp only [Except.ok.injEq, Prod.mk.injEq] at h
-                obtain ⟨e1, e2⟩ := h
-                obtain ⟨b1, b2⟩ := fee_rate_bound _ _ hf
-                have hc' : validateConstants ts c = true := by
-                  cases hx : validateConstants ts c with
-                  | true => rfl
-                  | false => simp [hx] at hc
-                exact ⟨h1, h2, by cases taken <;> simp_all, hidx, e1.symm, hts, by rw [← e2]; exact b1, by rw [← b1]; exact b2, hc'⟩
+    rename_i hc
+    simp only [Except.ok.injEq, Prod.mk.injEq] at h
+    obtain ⟨e1, e2⟩ := h
+    obtain ⟨b1, b2⟩ := fee_rate_bound _ _ hf
+    have hc' : validateConstants ts c = true := by
+      cases hx : validateConstants ts c with
+      | true => rfl
+      | false => simp [hx] at hc
+    exact ⟨h1, h2, by cases taken <;> simp_all, by cases wrongAddr <;> simp_all, hidx, e1.symm, hts, by rw [← e2]; exact b1,
+      by rw [← b1]; exact b2, hc'⟩
 
 /-- a reward is initialized only by the pool's reward authority, at the lowest uninitialized index, and — through
     `initialize_reward_v2` — only over a mint that passes the admission table with the badge that really sits at
@@ -166,19 +174,22 @@ theorem delete_badge_sound (auth : Nat) (feature present : Bool) (h : deleteToke
         · cases h
         · exact ⟨h1, h2, by cases feature <;> simp_all, by cases present <;> simp_all⟩
 
-theorem config_extension_sound (auth : Nat) (taken : Bool) (h : initializeConfigExtensionIx auth taken = .ok ()) :
-    auth ≠ 1 ∧ auth ≠ 2 ∧ taken = false := by
+theorem config_extension_sound (auth : Nat) (taken wrongAddr : Bool) (h : initializeConfigExtensionIx auth taken wrongAddr = .ok ()) :
+    auth ≠ 1 ∧ auth ≠ 2 ∧ taken = false ∧ wrongAddr = false := by
   unfold initializeConfigExtensionIx at h
   split at h
   · cases h
-  · rename_i h2
-    split at h
-    · cases h
-    · rename_i ht
-      split at h
-      · cases h
-      · rename_i h1
-        exact ⟨h1, h2, by cases taken <;> simp_all⟩
+  rename_i h2
+  split at h
+  · cases h
+  rename_i hw
+  split at h
+  · cases h
+  rename_i ht
+  split at h
+  · cases h
+  rename_i h1
+  exact ⟨h1, h2, by cases taken <;> simp_all, by cases wrongAddr <;> simp_all⟩
 
 /-- `initialize_pool` (v1) creates pools only over SPL Token mints, with the same bounds as v2 -/
 theorem init_pool_v1_sound (keyA keyB : Nat) (t22a t22b : Bool) (price ts tierTs fee proto : Nat) (p : PoolD)
@@ -209,8 +220,9 @@ theorem init_pool_v1_sound (keyA keyB : Nat) (t22a t22b : Bool) (price ts tierTs
 example :
     (initializeConfigIx true 2500).toOption = some 2500 ∧ (initializeConfigIx true 2501).toOption = none ∧
     (initializeConfigIx false 300).toOption = none ∧
-    (initializeFeeTierIx 0 false 64 3000).toOption = some (64, 3000) ∧ (initializeFeeTierIx 1 false 64 3000).toOption = none ∧
-    (initializeFeeTierIx 0 false 0 3000).toOption = none ∧ (initializeFeeTierIx 0 false 64 60001).toOption = none ∧
+    (initializeFeeTierIx 0 false false 64 3000).toOption = some (64, 3000) ∧ (initializeFeeTierIx 1 false false 64 3000).toOption = none ∧
+    (initializeFeeTierIx 0 false true 64 3000).toOption = none ∧
+    (initializeFeeTierIx 0 false false 0 3000).toOption = none ∧ (initializeFeeTierIx 0 false false 64 60001).toOption = none ∧
     (initializeRewardIx true 0 1 1 { token2022 := true, native := false, freeze := false, tlv := [12, 0, 0, 0], badge := 1 }).toOption = some 1 ∧
     (initializeRewardIx true 0 1 1 { token2022 := true, native := false, freeze := false, tlv := [12, 0, 0, 0], badge := 0 }).toOption = none ∧
     (initializeRewardIx true 0 2 1 { token2022 := false, native := false, freeze := false, tlv := [], badge := 0 }).toOption = none := by
